@@ -834,12 +834,16 @@ class DocTest:
                 except KeyboardInterrupt:  # nocover
                     raise
                 except Exception:
-                    raise
-                    # self.exc_info = sys.exc_info()
-                    # ex_type, ex_value, tb = self.exc_info
-                    # self.failed_tb_lineno = tb.tb_lineno
-                    # if on_error == 'raise':
-                    #     raise
+                    # Errors that are only found when the part is compiled
+                    # (e.g. a return outside of a function) fail the doctest
+                    # like any other error.
+                    self.exc_info = sys.exc_info()
+                    ex_type, ex_value, tb = self.exc_info
+                    # A SyntaxError knows its line relative to the part
+                    self.failed_tb_lineno = getattr(ex_value, 'lineno', None) or 1
+                    if on_error == 'raise':
+                        raise
+                    break
                 try:
                     # Execute the doctest code
                     try:
@@ -1324,14 +1328,19 @@ class DocTest:
                         if self._partfilename is not None and self._partfilename in line:
                             # Intercept the line corresponding to the doctest
                             tbparts = line.split(',')
-                            tb_lineno = int(tbparts[-2].strip().split()[1])
+                            # The location line of a SyntaxError ends with the
+                            # line number, all others end with ", in <name>".
+                            lx = -2 if len(tbparts) > 2 else -1
+                            tb_lineno = int(tbparts[lx].strip().split()[1])
                             # modify the line number to match the doctest
-                            linepart = tbparts[-2].split(' ')
+                            linepart = tbparts[lx].rstrip('\n').split(' ')
 
                             linepart = overwrite_lineno(linepart)
 
-                            tbparts[-2] = ' '.join(linepart)
+                            tbparts[lx] = ' '.join(linepart)
                             new_line = ','.join(tbparts)
+                            if not new_line.endswith('\n'):
+                                new_line += '\n'
 
                             # failed_ctx = '>>> ' + self.failed_part.exec_lines[tb_lineno - 1]
                             orig_lines = self.failed_part.orig_lines
